@@ -73,6 +73,7 @@ pub mod abi {
         fn f(&self, a: VerArg) -> VerArg;
         fn g(&self, a: &VerArg) -> u32;
         fn h(&self, x: u32) -> Result<VerArg, String>;
+        fn j(&self, x: u32) -> Pin<Box<dyn Future<Output = VerArg> + Send>>;
     }
     #[savefile_abi_exportable(version = 2)]
     pub trait Fam_v2 {
@@ -80,5 +81,7 @@ pub mod abi {
         fn g(&self, a: &VerArg) -> u32;
         fn h(&self, x: u32) -> Result<VerArg, String>;
         fn i(&self, cb: &dyn Fn(VerArg) -> VerArg) -> VerArg;
+        fn j(&self, x: u32) -> Pin<Box<dyn Future<Output = VerArg>>>;
+        fn k(&self, f: Box<dyn Fn(u32) -> VerArg>) -> u32;
     }
 }
